@@ -201,7 +201,7 @@ def find_witness(actual, expected, argspecs, names=None, lane_bits=None, seed=0,
 def interpreted(t):
     """True when every operator in t has an exact evaluation in term.ev"""
     OK = {"const", "arg", "mem", "concat", "slice", "rep", "not", "and", "or", "xor", "add", "mul", "sub",
-          "neg", "icmp", "fcmp", "select", "popsum", "satus", "satss", "fadd", "fsub", "fmul", "fdiv", "call:llvm.sqrt", "call:llvm.fabs", "shlsat", "lshrsat", "ashrsat", "shl", "lshr", "ashr",
+          "neg", "icmp", "fcmp", "select", "popsum", "x86.fpclass", "satus", "satss", "fadd", "fsub", "fmul", "fdiv", "call:llvm.sqrt", "call:llvm.fabs", "shlsat", "lshrsat", "ashrsat", "shl", "lshr", "ashr",
           "fshl", "fshr", "call:llvm.ctpop", "call:llvm.ctlz", "call:llvm.cttz", "call:llvm.bswap",
           "call:llvm.bitreverse", "call:llvm.abs", "call:llvm.umin", "call:llvm.umax",
           "call:llvm.smin", "call:llvm.smax", "call:llvm.uadd.sat", "call:llvm.usub.sat",
@@ -250,7 +250,8 @@ class _NoMem:
 def compare(actual, expected, summary, argspecs, names, lane_bits, pure=True, env_ok=None):
     """generic verdict for value-returning pure operations"""
     if pure and summary.accesses and all(
-            a.kind == "r" and (a.base[0] == "global" or (a.base[0] == "add" and any(x[0] == "global" for x in a.base[2:])))
+            (a.kind == "r" and (a.base[0] == "global" or (a.base[0] == "add" and any(x[0] == "global" for x in a.base[2:]))))
+            or a.base[0] == "alloca"
             for a in summary.accesses):
         summary = _NoMem      # reads of constant tables are not memory effects of the operation
     if actual is expected:
